@@ -7,7 +7,7 @@ From PS Require Import Num RLemmas Valid ModelKernels ModelFuncs ModelAPI Spec S
 From PS Require Import Lem_MinDist Lem_Isi.
 Local Open Scope R_scope.
 
-Notation sstR := (@sst R).
+Local Notation sstR := (@sst R).
 
 (* ------------------------------------------------------------------ *)
 (* A. the cython variant differs only in how the auxiliary spikes are
@@ -217,7 +217,7 @@ Lemma nu_after_pos : forall te x past f', x < te -> Forall (fun z => x < z) f' -
 Proof.
   intros te x past f' H F P. unfold nu_after. destruct f' as [|y f''].
   - destruct past as [|p0 past']; rops; [lra|]. apply Rlt_le_trans with (te - x); [lra|apply Rmax_l].
-  - inversion F; subst. rops. lra.
+  - inversion F; subst. rops. destruct past; lra.
 Qed.
 
 (* ------------------------------------------------------------------ *)
@@ -244,7 +244,7 @@ Section Train.
   Proof.
     intros x. transitivity (nearest ROps (fst auxw, snd auxw) w x);
       [|rewrite <- surjective_pairing; reflexivity].
-    destruct (aux_bounds Vw) as (H0 & H1 & HF). destruct Vw as (Hlt & Sw & _).
+    destruct (aux_bounds ts te w Vw) as (H0 & H1 & HF). destruct Vw as (Hlt & Sw & _).
     apply get_min_dist_nearest; auto. unfold auxw. lra.
   Qed.
 
@@ -253,10 +253,12 @@ Section Train.
   Proof.
     intros pb fb c y E L Hy. transitivity (nearest ROps (fst auxw, snd auxw) w y);
       [|rewrite <- surjective_pairing; reflexivity].
-    destruct (aux_bounds Vw) as (H0 & H1 & HF). destruct Vw as (Hlt & Sw & _).
-    rewrite E in HF, Sw |- *.
+    destruct (aux_bounds ts te w Vw) as (H0 & H1 & HF). destruct Vw as (Hlt & Sw & _).
+    fold auxw in H0, H1, HF. rewrite E in HF, Sw.
+    replace (nearest ROps (fst auxw, snd auxw) w y)
+      with (nearest ROps (fst auxw, snd auxw) (rev pb ++ fb) y) by (rewrite <- E; reflexivity).
     apply get_min_dist_from_cursor; auto.
-    - unfold auxw. lra.
+    - lra.
     - intros p Hp. destruct pb as [|p' pb']; cbn in Hp; [discriminate|]. injection Hp as ->.
       cbn [lo] in L. lra.
   Qed.
@@ -276,10 +278,10 @@ Section Train.
     split; [exact Hdtf|].
     destruct T' as (E & S & Ff & L & N).
     split.
-    - rewrite Hisi, Htf. unfold nu_after. destruct fA' as [|y fA'']; [|reflexivity].
-      assert (R : rev u = x :: past).
+    - rewrite Hisi, Htf. unfold nu_after. destruct fA' as [|y fA'']; [|destruct past; reflexivity].
+      assert (Ru : rev u = x :: past).
       { rewrite E, app_nil_r. apply rev_involutive. }
-      unfold auxu. rewrite (aux_snd_isi ts te u R). destruct past; rops; lra.
+      unfold auxu. rewrite (aux_snd_isi ts te u x past Ru). destruct past; rops; lra.
     - intros Hx. rewrite Hisi. apply nu_after_pos; auto.
       + eapply Forall_impl; [|apply Ff]. cbn; intros; lra.
       + intros p0 Hp0. rewrite E in S. cbn [rev] in S. rewrite <- app_assoc in S. cbn [app] in S.
@@ -293,23 +295,22 @@ Section Train.
   Proof.
     intros c a x s (T & H1 & H2 & H3 & H4 & H5 & H6) Hc Hh.
     unfold sinv. cbn [s_past s_fut s_tp s_tf s_dtp s_dtf s_isi].
-    repeat split; auto.
-    - apply (tinv_keep T); auto.
-    - intros; apply H6; lra.
+    split; [apply (tinv_keep (a:=x) T); auto|].
+    do 5 (split; [assumption|]). intros; apply H6; lra.
   Qed.
 
   Lemma sinv_dt_end : forall c a, sinv c a -> s_fut a = [] -> s_dtp a = s_dtf a.
   Proof.
     intros c a (T & H1 & H2 & H3 & H4 & H5 & H6) E. rewrite H3, H4, E.
     destruct (s_past a) as [|x p] eqn:Ep; [|rewrite H1; reflexivity].
-    exfalso. apply Nu. destruct T as (Eu & _). rewrite Eu, Ep, E. reflexivity.
+    exfalso. apply Nu. destruct T as (Eu & _). rewrite Eu, E. reflexivity.
   Qed.
 
   Lemma sinv_dt_start : forall c a, sinv c a -> s_past a = [] -> s_dtp a = s_dtf a.
   Proof.
     intros c a (T & H1 & H2 & H3 & H4 & H5 & H6) E. rewrite H3, H4, E.
     destruct (s_fut a) as [|y f] eqn:Ef; [|rewrite H2; reflexivity].
-    exfalso. apply Nu. destruct T as (Eu & _). rewrite Eu, E, Ef. reflexivity.
+    exfalso. apply Nu. destruct T as (Eu & _). rewrite Eu, E. reflexivity.
   Qed.
 
   Lemma val_const : forall c a t, sinv c a -> c < te -> s_dtp a = s_dtf a -> val a t = s_dtf a.
@@ -351,9 +352,801 @@ Section Train.
     rewrite Hp, Hn.
     destruct (s_past a) as [|x p] eqn:Ep, (s_fut a) as [|y f] eqn:Ef.
     - exfalso. apply Nu. rewrite E. reflexivity.
-    - f_equal. rewrite <- H4. symmetry. apply (val_const t Hs Hc). apply (sinv_dt_start Hs Ep).
-    - f_equal. rewrite <- H3. rewrite (val_const t Hs Hc); apply (sinv_dt_end Hs Ef).
+    - f_equal. rewrite <- H4. symmetry. apply (val_const c a t Hs Hc). apply (sinv_dt_start c a Hs Ep).
+    - f_equal. rewrite <- H3. rewrite (val_const c a t Hs Hc); apply (sinv_dt_end c a Hs Ef).
     - f_equal. unfold val. rewrite <- H3, <- H4. rewrite H5 in *. rewrite H1, H2 in *.
       cbn [nadd nsub nmul ndiv ROps]. reflexivity.
   Qed.
+  Lemma new_self_unfold : forall auxA auxB (a b : sstR) x fA', s_fut a = x :: fA' ->
+    new_self te auxA auxB a b =
+    mkSst (x :: s_past a) fA' (s_tf a) (new_tf auxA fA') (s_dtf a)
+          (new_dtf auxB a b fA') (new_isi te a x fA') (s_dtf a).
+  Proof. intros. unfold new_self. rewrite H. reflexivity. Qed.
+
+  Lemma sinv_tf_hd : forall c a x fA', sinv c a -> s_fut a = x :: fA' -> s_tf a = x /\ c < x <= te.
+  Proof.
+    intros c a x fA' (T & H1 & H2 & H3 & H4 & H5 & H6) E. rewrite E in *. split; auto.
+    apply (tinv_hd T).
+  Qed.
+
+  Lemma sinv_fut_sorted : forall c a x y fA', sinv c a -> s_fut a = x :: y :: fA' -> x < y.
+  Proof.
+    intros c a x y fA' (T & _) E. rewrite E in T. destruct T as (Eu & S & _).
+    rewrite Eu in S. apply ssorted_app_inv in S as (_ & S & _).
+    apply ssorted_cons_inv in S as [_ F]. inversion F; auto.
+  Qed.
+
+  (* advancing over the next spike re-establishes the invariant *)
+  Lemma sinv_new_self : forall c a b x fA', sinv c a -> s_fut a = x :: fA' ->
+    w = rev (s_past b) ++ s_fut b -> lo (s_past b) c ->
+    sinv x (new_self te auxu auxw a b).
+  Proof.
+    intros c a b x fA' Hs E Ew Lb.
+    destruct (sinv_tf_hd c a _ _ Hs E) as [Htf [Hcx Hxe]].
+    rewrite (new_self_unfold auxu auxw a b _ _ E).
+    pose proof Hs as (T & H1 & H2 & H3 & H4 & H5 & H6). rewrite E in T, H4.
+    rewrite Htf at 1.
+    eapply sinv_mk; [exact T| | | |].
+    - reflexivity.
+    - exact H4.
+    - unfold new_dtf. destruct fA' as [|y fA'']; [exact H4|].
+      apply (gmd_cursor _ _ c y Ew Lb). pose proof (sinv_fut_sorted c a _ _ _ Hs E). lra.
+    - unfold new_isi, nu_after. rewrite Htf. destruct fA' as [|y fA''].
+      + destruct (s_past a); reflexivity.
+      + destruct (s_past a); reflexivity.
+  Qed.
+
+  (* simultaneous spike *)
+  Lemma sinv_both : forall c a x fA' pB fB, sinv c a -> s_fut a = x :: fA' -> In x w ->
+    w = rev pB ++ fB -> lo pB x ->
+    sinv x (spike_both_one ROps te auxu auxw a pB fB).
+  Proof.
+    intros c a x fA' pB fB Hs E Hin Ew Lb.
+    destruct (sinv_tf_hd c a _ _ Hs E) as [Htf [Hcx Hxe]].
+    pose proof Hs as (T & H1 & H2 & H3 & H4 & H5 & H6). rewrite E in T, H4.
+    assert (Z : nearest ROps auxw w x = 0) by (apply nearest_zero_at_spike; exact Hin).
+    unfold spike_both_one. rewrite E. destruct fA' as [|y fA''].
+    - rewrite Htf. eapply sinv_mk; [exact T|reflexivity|cbn [n0 ROps]; auto..|].
+      cbn [n0 ROps]. destruct (s_past a); reflexivity.
+    - rewrite Htf. eapply sinv_mk; [exact T|reflexivity|cbn [n0 ROps]; auto| |].
+      + apply (gmd_cursor _ _ x y Ew Lb). pose proof (sinv_fut_sorted c a _ _ _ Hs E). lra.
+      + cbn [nsub ROps nu_after]. destruct (s_past a); reflexivity.
+  Qed.
+
+  (* the start state *)
+  Lemma sinv_init : let a0 := spike_init ROps ts te u w auxu auxw in
+    sinv ts a0 /\ tf_ok a0 /\ (forall x, In x (s_fut a0) <-> In x u /\ ts < x) /\
+    (length (s_fut a0) <= length u)%nat /\ ssorted (s_fut a0) /\ val a0 ts = s_s a0.
+  Proof.
+    cbv zeta.
+    assert (Hu : exists x0 r, u = x0 :: r).
+    { case_eq u; [intros E0; congruence|intros x0 r E0; eauto]. }
+    destruct Hu as (x0 & r & Eu).
+    pose proof Vu as (Hte & S & B). rewrite Eu in S, B.
+    pose proof (ssorted_cons_inv _ _ S) as [Sr Fr].
+    inversion B as [|? ? B0 Br]; subst x l.
+    assert (Io : forall p f nu, isi_init ROps ts te (x0 :: r) = (p, f, nu) ->
+                 tinv ts te u ts p f nu /\ (forall x, In x f <-> In x u /\ ts < x) /\
+                 (length f <= length u)%nat /\ ssorted f).
+    { intros p f nu. rewrite <- Eu. apply init_ok; auto. }
+    replace (spike_init ROps ts te u w auxu auxw) with (spike_init ROps ts te (x0 :: r) w auxu auxw)
+      by (rewrite Eu; reflexivity).
+    unfold isi_init in Io. unfold spike_init.
+    cbn [nltb neqb ROps] in *.
+    destruct (Rltb_spec ts x0) as [H|H].
+    - (* first spike after t_start *)
+      destruct (Reqb_spec x0 ts) as [Hq|Hq]; [lra|].
+      destruct (Io _ _ _ eq_refl) as (T & M & Ln & Sf). cbv zeta.
+      assert (Hisi : match r with
+                     | [] => nsub ROps x0 ts
+                     | x1 :: _ => nmax ROps (nsub ROps x0 ts) (nsub ROps x1 x0)
+                     end = x0 - fst auxu).
+      { unfold auxu. rewrite Eu, aux_fst_isi. destruct r; rops; lra. }
+      assert (Hpos : 0 < x0 - fst auxu).
+      { destruct (aux_bounds ts te u Vu) as (Ha & _). fold auxu in Ha. lra. }
+      assert (Si : sinv ts (mkSst [] (x0 :: r) (fst auxu) x0
+                    (get_min_dist ROps x0 w (fst auxw) (snd auxw))
+                    (get_min_dist ROps x0 w (fst auxw) (snd auxw))
+                    match r with
+                    | [] => nsub ROps x0 ts
+                    | x1 :: _ => nmax ROps (nsub ROps x0 ts) (nsub ROps x1 x0)
+                    end (get_min_dist ROps x0 w (fst auxw) (snd auxw)))).
+      { unfold sinv. cbn [s_past s_fut s_tp s_tf s_dtp s_dtf s_isi].
+        split; [exact T|]. split; [reflexivity|]. split; [reflexivity|].
+        split; [apply gmd_all|]. split; [apply gmd_all|]. split; [exact Hisi|].
+        intros _. rewrite Hisi. exact Hpos. }
+      split; [exact Si|]. split; [reflexivity|]. split; [exact M|]. split; [exact Ln|].
+      split; [exact Sf|].
+      cbn [s_s]. rewrite (val_const ts _ ts Si Hte); reflexivity.
+    - (* first spike on t_start *)
+      assert (x0 = ts) by lra. subst x0.
+      destruct (Reqb_spec ts ts) as [_|Hq]; [|congruence].
+      destruct (Io _ _ _ eq_refl) as (T & M & Ln & Sf). cbv zeta.
+      set (tf := match r with [] => te | x1 :: _ => x1 end).
+      set (dtp := get_min_dist ROps ts w (fst auxw) (snd auxw)).
+      set (dtf := match r with [] => dtp | _ :: _ => get_min_dist ROps tf w (fst auxw) (snd auxw) end).
+      assert (Htf : tf = match r with y :: _ => y | [] => snd auxu end).
+      { unfold tf, auxu. rewrite Eu. destruct r; reflexivity. }
+      assert (Hisi : match r with [] => nsub ROps te ts | x1 :: _ => nsub ROps x1 ts end = tf - ts).
+      { unfold tf. destruct r; reflexivity. }
+      assert (Hpos : 0 < tf - ts).
+      { unfold tf. destruct r as [|x1 r']; [lra|]. inversion Fr; lra. }
+      assert (Si : sinv ts (mkSst [ts] r ts tf dtp dtf (tf - ts) dtp)).
+      { unfold sinv. cbn [s_past s_fut s_tp s_tf s_dtp s_dtf s_isi].
+        split; [rewrite <- Hisi; exact T|]. split; [reflexivity|]. split; [exact Htf|].
+        split; [apply gmd_all|]. split; [|split; [reflexivity|intros _; exact Hpos]].
+        unfold dtf. destruct r; apply gmd_all. }
+      split; [exact Si|]. split; [|split; [exact M|split; [exact Ln|split; [exact Sf|]]]].
+      + unfold tf_ok. cbn [s_fut s_tf]. unfold tf. destruct r; auto.
+      + cbn [s_s]. apply (val_at_tp ts _ Si Hte).
+  Qed.
+  Lemma val_zero_tf : forall c a x f, sinv c a -> c < te -> s_fut a = x :: f -> In x w ->
+    val a x = 0.
+  Proof.
+    intros c a x f Hs Hc E Hin. destruct (sinv_tf_hd c a _ _ Hs E) as [Htf _].
+    rewrite <- Htf. rewrite (val_at_tf' c a Hs Hc).
+    destruct Hs as (T & H1 & H2 & H3 & H4 & H5 & H6). rewrite H4, E.
+    apply nearest_zero_at_spike; exact Hin.
+  Qed.
+
+  Lemma val_zero_tp : forall c a x p, sinv c a -> c < te -> s_past a = x :: p -> In x w ->
+    val a x = 0.
+  Proof.
+    intros c a x p Hs Hc E Hin. pose proof Hs as (T & H1 & H2 & H3 & H4 & H5 & H6).
+    rewrite E in H1, H3. rewrite <- H1. rewrite (val_at_tp c a Hs Hc). rewrite H3.
+    apply nearest_zero_at_spike; exact Hin.
+  Qed.
+
+  Lemma sinv_cursor : forall c a, sinv c a -> u = rev (s_past a) ++ s_fut a /\ lo (s_past a) c.
+  Proof. intros c a ((E & S & F & L & N) & _). auto. Qed.
 End Train.
+
+(* ------------------------------------------------------------------ *)
+(* 3. the merge loop                                                    *)
+
+Lemma spike_loop_nil : forall k te m ri aux1 aux2 (a b : sstR), s_fut a = [] -> s_fut b = [] ->
+  spike_loop ROps k te m ri aux1 aux2 a b = [].
+Proof. intros k te m ri aux1 aux2 a b Ea Eb. destruct k; cbn [spike_loop]; [|rewrite Ea, Eb]; reflexivity. Qed.
+
+Lemma spike_final_nil : forall k te m ri aux1 aux2 (a b : sstR), s_fut a = [] -> s_fut b = [] ->
+  spike_final ROps k te m ri aux1 aux2 a b = (a, b).
+Proof. intros k te m ri aux1 aux2 a b Ea Eb. destruct k; cbn [spike_final]; [|rewrite Ea, Eb]; reflexivity. Qed.
+
+Section Loop.
+  Variables ts te m : R.
+  Variable ri : bool.
+  Variables u1 u2 : list R.
+  Hypothesis V1 : valid ts te u1.
+  Hypothesis V2 : valid ts te u2.
+  Hypothesis N1 : u1 <> [].
+  Hypothesis N2 : u2 <> [].
+  Let aux1 := aux_of ROps ts te u1.
+  Let aux2 := aux_of ROps ts te u2.
+
+  Definition Yat (a b : sstR) (t : R) : R :=
+    dist_at_t ROps (s_isi a) (s_isi b) (val a t) (val b t) m ri.
+  Definition ylast (a b : sstR) : R :=
+    dist_at_t ROps (s_isi a) (s_isi b) (s_dtf a) (s_dtf b) m ri.
+  Definition gv1 (pc : R * R) : R := spike_at ROps ts te m ri u1 u2 (mid ROps pc) (fst pc).
+  Definition gv2 (pc : R * R) : R := spike_at ROps ts te m ri u1 u2 (mid ROps pc) (snd pc).
+
+  Lemma gv_ok : forall c x a b t,
+    sinv ts te u1 u2 c a -> sinv ts te u2 u1 c b -> c < x <= te ->
+    (forall t, t < x -> hi (s_fut a) t) -> (forall t, t < x -> hi (s_fut b) t) ->
+    spike_at ROps ts te m ri u1 u2 (mid ROps (c, x)) t = Yat a b t.
+  Proof.
+    intros c x a b t Ia Ib [Hcx Hxe] Ha Hb.
+    pose proof (mid_between c x Hcx) as [M1 M2].
+    rewrite spike_at_eq_dist_at_t.
+    rewrite (contrib_cursor ts te u1 u2 N1 c a _ _ Ia); auto; try lra.
+    rewrite (contrib_cursor ts te u2 u1 N2 c b _ _ Ib); auto; try lra.
+  Qed.
+
+  Definition close3 (xs y1s y2s : list R) (yl : R) : list R * list R * list R :=
+    if neqb ROps (last xs te) te then (xs, removelast y1s, y2s)
+    else (xs ++ [te], y1s, y2s ++ [yl]).
+
+  Definition res3 (c : R) (E : list R) : list R * list R * list R :=
+    (c :: tl_bs te c E, map gv1 (pieces (c :: tl_bs te c E)), map gv2 (pieces (c :: tl_bs te c E))).
+
+  Lemma close3_nil : forall c a b v,
+    sinv ts te u1 u2 c a -> sinv ts te u2 u1 c b -> s_fut a = [] -> s_fut b = [] -> c <= te ->
+    (c < te -> v = Yat a b c) ->
+    close3 [c] [v] [] (ylast a b) = res3 c [].
+  Proof.
+    intros c a b v Ia Ib Ea Eb Hc Hv. unfold close3, res3, tl_bs. cbn [last neqb ROps filter app].
+    destruct (Reqb_spec c te) as [E|E].
+    - subst. destruct (Rltb_spec te te); [lra|]. reflexivity.
+    - destruct (Rltb_spec c te); [|lra]. cbn [pieces map app]. unfold gv1, gv2. cbn [fst snd].
+      assert (Ha : forall t, t < te -> hi (s_fut a) t) by (intros; rewrite Ea; exact I).
+      assert (Hb : forall t, t < te -> hi (s_fut b) t) by (intros; rewrite Eb; exact I).
+      rewrite (gv_ok c te a b c), (gv_ok c te a b te); auto; try lra.
+      rewrite Hv by lra. unfold Yat, ylast.
+      rewrite (val_const ts te u1 u2 c a te Ia), (val_const ts te u2 u1 c b te Ib); auto; try lra.
+      + apply (sinv_dt_end ts te u2 u1 N2 c b Ib Eb).
+      + apply (sinv_dt_end ts te u1 u2 N1 c a Ia Ea).
+  Qed.
+
+  Lemma close3_step : forall c a v v' w E' Y1' Y2' yl,
+    c < a -> a <= te -> (a = te -> E' = []) -> gv1 (c, a) = v -> gv2 (c, a) = w ->
+    close3 (a :: E') (v' :: Y1') Y2' yl = res3 a E' ->
+    close3 (c :: a :: E') (v :: v' :: Y1') (w :: Y2') yl = res3 c (a :: E').
+  Proof.
+    intros c a v v' w E' Y1' Y2' yl Hca Hate Hnil Hv Hw IH.
+    assert (T : tl_bs te c (a :: E') = a :: tl_bs te a E').
+    { unfold tl_bs. destruct (Rltb_spec c te); [|lra]. cbn [filter].
+      destruct (Rltb_spec a te) as [H|H]; [reflexivity|].
+      rewrite Hnil by lra. assert (a = te) as -> by lra. reflexivity. }
+    unfold res3 in *. rewrite T. rewrite pieces_cons2. cbn [map]. rewrite Hv, Hw.
+    unfold close3 in *.
+    change (last (c :: a :: E') te) with (last (a :: E') te).
+    change (removelast (v :: v' :: Y1')) with (v :: removelast (v' :: Y1')).
+    destruct (neqb ROps (last (a :: E') te) te); cbn [app] in *; congruence.
+  Qed.
+
+  Definition y1of (e : R * R * R) : R := snd e.
+  Definition y2of (e : R * R * R) : R := snd (fst e).
+
+  Definition loop_goal (fuel : nat) (c : R) (a b : sstR) (v : R) : Prop :=
+    let evs := spike_loop ROps fuel te m ri aux1 aux2 a b in
+    let fin := spike_final ROps fuel te m ri aux1 aux2 a b in
+    close3 (c :: map (@ev_t R) evs) (v :: map y1of evs) (map y2of evs) (ylast (fst fin) (snd fin)) =
+    res3 c (map (@ev_t R) evs).
+
+  Definition loop_hyp (k : nat) : Prop :=
+    forall c a b v, sinv ts te u1 u2 c a -> sinv ts te u2 u1 c b -> c <= te ->
+      (c < te -> v = Yat a b c) -> (length (s_fut a) + length (s_fut b) <= k)%nat ->
+      loop_goal k c a b v.
+
+  Lemma loop_step : forall k c x a b a' b' v ye ys,
+    loop_hyp k ->
+    sinv ts te u1 u2 c a -> sinv ts te u2 u1 c b ->
+    sinv ts te u1 u2 x a' -> sinv ts te u2 u1 x b' ->
+    c < x <= te -> (forall t, t < x -> hi (s_fut a) t) -> (forall t, t < x -> hi (s_fut b) t) ->
+    v = Yat a b c -> ye = Yat a b x -> (x < te -> ys = Yat a' b' x) ->
+    (length (s_fut a') + length (s_fut b') <= k)%nat ->
+    let evs := spike_loop ROps k te m ri aux1 aux2 a' b' in
+    let fin := spike_final ROps k te m ri aux1 aux2 a' b' in
+    close3 (c :: x :: map (@ev_t R) evs) (v :: ys :: map y1of evs) (ye :: map y2of evs)
+           (ylast (fst fin) (snd fin)) = res3 c (x :: map (@ev_t R) evs).
+  Proof.
+    intros k c x a b a' b' v ye ys IH Ia Ib Ia' Ib' [Hcx Hxe] Ha Hb Hv Hye Hys L evs fin.
+    apply close3_step; auto.
+    - intros ->. unfold evs. destruct Ia' as (Ta & _). destruct Ib' as (Tb & _).
+      rewrite spike_loop_nil; auto; eapply tinv_te_nil; eauto.
+    - unfold gv1. cbn [fst]. rewrite (gv_ok c x a b c); auto.
+    - unfold gv2. cbn [snd]. rewrite (gv_ok c x a b x); auto.
+    - apply (IH x a' b' ys); auto.
+  Qed.
+  Lemma hi_lt : forall f x t, hi f x -> t < x -> hi f t.
+  Proof. intros [|y f] x t H Ht; cbn [hi] in *; auto; lra. Qed.
+
+  Lemma past_both : forall auxA auxB (a : sstR) pB fB x fA', s_fut a = x :: fA' ->
+    s_past (spike_both_one ROps te auxA auxB a pB fB) = x :: s_past a.
+  Proof. intros. unfold spike_both_one. rewrite H. destruct fA'; reflexivity. Qed.
+
+  (* train 1 advances *)
+  Lemma step_go1 : forall k c a b v x fa',
+    loop_hyp k -> sinv ts te u1 u2 c a -> sinv ts te u2 u1 c b -> v = Yat a b c ->
+    s_fut a = x :: fa' -> hi (s_fut b) x ->
+    (length fa' + length (s_fut b) <= k)%nat ->
+    let a' := new_self te aux1 aux2 a b in
+    let b' := new_other a b in
+    let evs := spike_loop ROps k te m ri aux1 aux2 a' b' in
+    let fin := spike_final ROps k te m ri aux1 aux2 a' b' in
+    close3 (c :: s_tf a :: map (@ev_t R) evs)
+      (v :: dist_at_t ROps (new_isi te a x fa') (s_isi b) (s_dtf a) (val b (s_tf a)) m ri :: map y1of evs)
+      (dist_at_t ROps (s_isi a) (s_isi b) (send a) (val b (s_tf a)) m ri :: map y2of evs)
+      (ylast (fst fin) (snd fin)) = res3 c (s_tf a :: map (@ev_t R) evs).
+  Proof.
+    intros k c a b v x fa' IH Ia Ib Hv Ea Hb L a' b' evs fin.
+    destruct (sinv_tf_hd ts te u1 u2 c a x fa' Ia Ea) as [Htf Hx].
+    destruct (sinv_cursor ts te u2 u1 c b Ib) as [Ew Lb].
+    assert (Ia' : sinv ts te u1 u2 x a') by (apply (sinv_new_self ts te u1 u2 V2 c a b x fa'); auto).
+    assert (Ib' : sinv ts te u2 u1 x b') by (apply (sinv_keep ts te u2 u1 c b x); auto; lra).
+    rewrite Htf.
+    apply (loop_step k c x a b a' b'); auto.
+    - intros t Ht. rewrite Ea. cbn [hi]. exact Ht.
+    - intros t Ht. apply (hi_lt _ _ _ Hb Ht).
+    - unfold Yat. rewrite <- Htf, val_at_tf. reflexivity.
+    - intros Hxe. unfold Yat.
+      assert (E1 : s_isi a' = new_isi te a x fa').
+      { unfold a'. rewrite (new_self_unfold te aux1 aux2 a b _ _ Ea). reflexivity. }
+      assert (E2 : val a' x = s_dtf a).
+      { assert (Q : s_tp a' = x /\ s_dtp a' = s_dtf a).
+        { unfold a'. rewrite (new_self_unfold te aux1 aux2 a b _ _ Ea). cbn [s_tp s_dtp]. auto. }
+        destruct Q as [Q1 Q2]. rewrite <- Q1 at 1. rewrite <- Q2.
+        apply (val_at_tp ts te u1 u2 x a' Ia' Hxe). }
+      rewrite E1, E2. reflexivity.
+    - unfold a'. rewrite (fut_new_self te aux1 aux2 a b Ea). exact L.
+  Qed.
+
+  (* train 2 advances *)
+  Lemma step_go2 : forall k c a b v y fb',
+    loop_hyp k -> sinv ts te u1 u2 c a -> sinv ts te u2 u1 c b -> v = Yat a b c ->
+    s_fut b = y :: fb' -> hi (s_fut a) y ->
+    (length (s_fut a) + length fb' <= k)%nat ->
+    let b' := new_self te aux2 aux1 b a in
+    let a' := new_other b a in
+    let evs := spike_loop ROps k te m ri aux1 aux2 a' b' in
+    let fin := spike_final ROps k te m ri aux1 aux2 a' b' in
+    close3 (c :: s_tf b :: map (@ev_t R) evs)
+      (v :: dist_at_t ROps (s_isi a) (new_isi te b y fb') (val a (s_tf b)) (s_dtf b) m ri :: map y1of evs)
+      (dist_at_t ROps (s_isi a) (s_isi b) (val a (s_tf b)) (send b) m ri :: map y2of evs)
+      (ylast (fst fin) (snd fin)) = res3 c (s_tf b :: map (@ev_t R) evs).
+  Proof.
+    intros k c a b v y fb' IH Ia Ib Hv Eb Ha L b' a' evs fin.
+    destruct (sinv_tf_hd ts te u2 u1 c b y fb' Ib Eb) as [Htf Hy].
+    destruct (sinv_cursor ts te u1 u2 c a Ia) as [Ew La].
+    assert (Ib' : sinv ts te u2 u1 y b') by (apply (sinv_new_self ts te u2 u1 V1 c b a y fb'); auto).
+    assert (Ia' : sinv ts te u1 u2 y a') by (apply (sinv_keep ts te u1 u2 c a y); auto; lra).
+    rewrite Htf.
+    apply (loop_step k c y a b a' b'); auto.
+    - intros t Ht. apply (hi_lt _ _ _ Ha Ht).
+    - intros t Ht. rewrite Eb. cbn [hi]. exact Ht.
+    - unfold Yat. rewrite <- Htf, val_at_tf. reflexivity.
+    - intros Hye. unfold Yat.
+      assert (E1 : s_isi b' = new_isi te b y fb').
+      { unfold b'. rewrite (new_self_unfold te aux2 aux1 b a _ _ Eb). reflexivity. }
+      assert (E2 : val b' y = s_dtf b).
+      { assert (Q : s_tp b' = y /\ s_dtp b' = s_dtf b).
+        { unfold b'. rewrite (new_self_unfold te aux2 aux1 b a _ _ Eb). cbn [s_tp s_dtp]. auto. }
+        destruct Q as [Q1 Q2]. rewrite <- Q1 at 1. rewrite <- Q2.
+        apply (val_at_tp ts te u2 u1 y b' Ib' Hye). }
+      rewrite E1, E2. reflexivity.
+    - unfold b'. rewrite (fut_new_self te aux2 aux1 b a Eb). exact L.
+  Qed.
+
+  (* simultaneous spike *)
+  Lemma step_both : forall k c a b v x fa' fb',
+    loop_hyp k -> sinv ts te u1 u2 c a -> sinv ts te u2 u1 c b -> v = Yat a b c ->
+    s_fut a = x :: fa' -> s_fut b = x :: fb' ->
+    (length fa' + length fb' <= k)%nat ->
+    let a' := spike_both_one ROps te aux1 aux2 a (x :: s_past b) fb' in
+    let b' := spike_both_one ROps te aux2 aux1 b (x :: s_past a) fa' in
+    let evs := spike_loop ROps k te m ri aux1 aux2 a' b' in
+    let fin := spike_final ROps k te m ri aux1 aux2 a' b' in
+    close3 (c :: s_tf a :: map (@ev_t R) evs) (v :: 0 :: map y1of evs) (0 :: map y2of evs)
+      (ylast (fst fin) (snd fin)) = res3 c (s_tf a :: map (@ev_t R) evs).
+  Proof.
+    intros k c a b v x fa' fb' IH Ia Ib Hv Ea Eb L a' b' evs fin.
+    destruct (sinv_tf_hd ts te u1 u2 c a x fa' Ia Ea) as [Htf Hx].
+    destruct (sinv_cursor ts te u2 u1 c b Ib) as [Ew2 Lb].
+    destruct (sinv_cursor ts te u1 u2 c a Ia) as [Ew1 La].
+    assert (In2 : In x u2) by (rewrite Ew2, Eb; apply in_or_app; right; left; reflexivity).
+    assert (In1 : In x u1) by (rewrite Ew1, Ea; apply in_or_app; right; left; reflexivity).
+    assert (Ia' : sinv ts te u1 u2 x a').
+    { apply (sinv_both ts te u1 u2 V2 c a x fa'); auto.
+      - rewrite Ew2, Eb. cbn [rev]. rewrite <- app_assoc. reflexivity.
+      - cbn [lo]. lra. }
+    assert (Ib' : sinv ts te u2 u1 x b').
+    { apply (sinv_both ts te u2 u1 V1 c b x fb'); auto.
+      - rewrite Ew1, Ea. cbn [rev]. rewrite <- app_assoc. reflexivity.
+      - cbn [lo]. lra. }
+    assert (Hc : c < te) by lra.
+    rewrite Htf.
+    apply (loop_step k c x a b a' b'); auto.
+    - intros t Ht. rewrite Ea. cbn [hi]. exact Ht.
+    - intros t Ht. rewrite Eb. cbn [hi]. exact Ht.
+    - unfold Yat. rewrite (val_zero_tf ts te u1 u2 c a x fa' Ia Hc Ea In2).
+      rewrite (val_zero_tf ts te u2 u1 c b x fb' Ib Hc Eb In1). symmetry. apply dist_at_t_zero.
+    - intros Hxe. unfold Yat.
+      rewrite (val_zero_tp ts te u1 u2 x a' x (s_past a) Ia' Hxe (past_both aux1 aux2 a _ _ _ _ Ea) In2).
+      rewrite (val_zero_tp ts te u2 u1 x b' x (s_past b) Ib' Hxe (past_both aux2 aux1 b _ _ _ _ Eb) In1).
+      symmetry. apply dist_at_t_zero.
+    - unfold a', b'. rewrite (fut_both te aux1 aux2 a _ _ Ea), (fut_both te aux2 aux1 b _ _ Eb). exact L.
+  Qed.
+
+  Lemma loop_spec : forall fuel, loop_hyp fuel.
+  Proof.
+    induction fuel as [|k IH]; intros c a b v Ia Ib Hc Hv L.
+    - destruct (s_fut a) eqn:Ea, (s_fut b) eqn:Eb; cbn [length] in L; try lia.
+      unfold loop_goal. cbn [spike_loop spike_final map fst snd]. apply close3_nil; auto.
+    - unfold loop_goal. cbn [spike_loop spike_final].
+      destruct (s_fut a) as [|x fa'] eqn:Ea, (s_fut b) as [|y fb'] eqn:Eb.
+      + cbn [map fst snd]. apply close3_nil; auto.
+      + destruct (sinv_tf_hd ts te u2 u1 c b y fb' Ib Eb) as [_ Hy].
+        rewrite !(spike_adv_eq te m ri aux2 aux1 b a true Eb). cbn [map ev_t y1of y2of fst snd].
+        apply (step_go2 k c a b v y fb'); auto.
+        * apply Hv; lra.
+        * rewrite Ea; exact I.
+        * rewrite Ea. cbn [length] in *. lia.
+      + destruct (sinv_tf_hd ts te u1 u2 c a x fa' Ia Ea) as [_ Hx].
+        rewrite !(spike_adv_eq te m ri aux1 aux2 a b false Ea). cbn [map ev_t y1of y2of fst snd].
+        apply (step_go1 k c a b v x fa'); auto.
+        * apply Hv; lra.
+        * rewrite Eb; exact I.
+        * rewrite Eb. cbn [length] in *. lia.
+      + destruct (sinv_tf_hd ts te u1 u2 c a x fa' Ia Ea) as [Htfa Hx].
+        destruct (sinv_tf_hd ts te u2 u1 c b y fb' Ib Eb) as [Htfb Hy].
+        cbn [nltb ROps].
+        destruct (Rltb_spec (s_tf a) (s_tf b)) as [H1|H1];
+          [|destruct (Rltb_spec (s_tf b) (s_tf a)) as [H2|H2]].
+        * rewrite !(spike_adv_eq te m ri aux1 aux2 a b false Ea). cbn [map ev_t y1of y2of fst snd].
+          apply (step_go1 k c a b v x fa'); auto.
+          -- apply Hv; lra.
+          -- rewrite Eb. cbn [hi]. lra.
+          -- rewrite Eb. cbn [length] in *. lia.
+        * rewrite !(spike_adv_eq te m ri aux2 aux1 b a true Eb). cbn [map ev_t y1of y2of fst snd].
+          apply (step_go2 k c a b v y fb'); auto.
+          -- apply Hv; lra.
+          -- rewrite Ea. cbn [hi]. lra.
+          -- rewrite Ea. cbn [length] in *. lia.
+        * assert (Hyx : y = x) by lra. rewrite Hyx in Eb |- *.
+          cbn [map ev_t y1of y2of fst snd n0 ROps].
+          apply (step_both k c a b v x fa' fb'); auto.
+          -- apply Hv; lra.
+          -- cbn [length] in *. lia.
+  Qed.
+End Loop.
+
+(* ------------------------------------------------------------------ *)
+(* 4. MAIN: the profile kernel computes the declarative SPIKE profile   *)
+
+Lemma spike_profile_nonempty_spec : forall u1 u2 s1 s2 ts te m ri,
+  valid ts te u1 -> valid ts te u2 -> u1 <> [] -> u2 <> [] ->
+  (forall x, ts < x -> x < te -> (In x u1 <-> In x s1)) ->
+  (forall x, ts < x -> x < te -> (In x u2 <-> In x s2)) ->
+  spike_profile_py ROps u1 u2 ts te m ri =
+  (breaks ROps ts te s1 s2,
+   map (fun p => spike_at ROps ts te m ri u1 u2 (mid ROps p) (fst p)) (pieces (breaks ROps ts te s1 s2)),
+   map (fun p => spike_at ROps ts te m ri u1 u2 (mid ROps p) (snd p)) (pieces (breaks ROps ts te s1 s2))).
+Proof.
+  intros u1 u2 s1 s2 ts te m ri W1 W2 N1 N2 Q1 Q2.
+  assert (Hte : ts < te) by (destruct W1; auto).
+  unfold spike_profile_py, spike_profile_gen. rewrite !t_aux_py_spec.
+  pose proof (sinv_init ts te u1 u2 W1 W2 N1) as X1. cbv zeta in X1.
+  pose proof (sinv_init ts te u2 u1 W2 W1 N2) as X2. cbv zeta in X2.
+  destruct X1 as (I1 & T1 & M1 & L1 & S1 & Y1). destruct X2 as (I2 & T2 & M2 & L2 & S2 & Y2).
+  set (aux1 := aux_of ROps ts te u1) in *. set (aux2 := aux_of ROps ts te u2) in *.
+  set (a0 := spike_init ROps ts te u1 u2 aux1 aux2) in *.
+  set (b0 := spike_init ROps ts te u2 u1 aux2 aux1) in *.
+  assert (Hc : ts <= te) by lra.
+  assert (L : (length (s_fut a0) + length (s_fut b0) <= length u1 + length u2)%nat) by lia.
+  assert (Hv : ts < te -> dist_at_t ROps (s_isi a0) (s_isi b0) (s_s a0) (s_s b0) m ri
+                          = Yat m ri a0 b0 ts).
+  { intros _. unfold Yat. rewrite Y1, Y2. reflexivity. }
+  pose proof (loop_spec ts te m ri u1 u2 W1 W2 N1 N2 (length u1 + length u2) ts a0 b0 _ I1 I2 Hc Hv L) as H.
+  unfold loop_goal in H. cbv zeta in H. fold aux1 aux2 in H.
+  assert (Bk : ts :: tl_bs te ts (map (@ev_t R)
+                 (spike_loop ROps (length u1 + length u2) te m ri aux1 aux2 a0 b0))
+               = breaks ROps ts te s1 s2).
+  { unfold tl_bs, breaks. destruct (Rltb_spec ts te); [|lra]. f_equal. f_equal.
+    rewrite spike_loop_events by auto. apply ssorted_ext.
+    - apply ssorted_filter. apply mrg_sorted; auto.
+    - apply sort_unique_sorted.
+    - intros x. rewrite filter_In, sort_unique_in, filter_In, in_app_iff.
+      cbn [nltb ROps]. rewrite andb_true_iff, !Rltb_true. split.
+      + intros [Hm Ht]. apply mrg_in in Hm. destruct Hm as [Hm|Hm].
+        * apply M1 in Hm as [Hu Hs]. split; [left|split; auto]. apply Q1; auto.
+        * apply M2 in Hm as [Hu Hs]. split; [right|split; auto]. apply Q2; auto.
+      + intros [Hin [Hs Ht]]. split; auto. apply mrg_in_conv; auto.
+        destruct Hin as [Hin|Hin]; [left; apply M1|right; apply M2]; split; auto;
+          [apply Q1|apply Q2]; auto. }
+  destruct (spike_final ROps (length u1 + length u2) te m ri aux1 aux2 a0 b0) as [af bf].
+  cbn [fst snd] in H.
+  refine (eq_trans H _). unfold res3. rewrite Bk. reflexivity.
+Qed.
+
+Theorem spike_profile_spec : forall s1 s2 ts te m ri,
+  valid ts te s1 -> valid ts te s2 ->
+  spike_profile_py ROps (eff ts te s1) (eff ts te s2) ts te m ri = spike_spec ROps s1 s2 ts te m ri.
+Proof.
+  intros s1 s2 ts te m ri V1 V2.
+  unfold spike_spec. cbv zeta.
+  apply spike_profile_nonempty_spec.
+  - apply eff_valid; auto.
+  - apply eff_valid; auto.
+  - apply eff_nonempty.
+  - apply eff_nonempty.
+  - intros x H1 H2; split; [intros H; eapply eff_in_inside; eauto|apply eff_in].
+  - intros x H1 H2; split; [intros H; eapply eff_in_inside; eauto|apply eff_in].
+Qed.
+
+(* B. breakpoints *)
+Corollary spike_profile_breakpoints : forall s1 s2 ts te m ri,
+  valid ts te s1 -> valid ts te s2 ->
+  fst (fst (spike_profile_py ROps (eff ts te s1) (eff ts te s2) ts te m ri)) = breaks ROps ts te s1 s2.
+Proof. intros. rewrite spike_profile_spec by auto. reflexivity. Qed.
+
+
+(* ------------------------------------------------------------------ *)
+(* D. the profile vanishes (from both sides) at a spike shared by the trains *)
+
+Lemma pieces_nth : forall (bs : list R) k p, nth_error (pieces bs) k = Some p ->
+  nth_error bs k = Some (fst p) /\ nth_error bs (S k) = Some (snd p).
+Proof.
+  induction bs as [|a bs IH]; intros k p H; [destruct k; discriminate|].
+  destruct bs as [|b r]; [destruct k; discriminate|].
+  rewrite pieces_cons2 in H. destruct k as [|k].
+  - cbn in H. injection H as <-. cbn. auto.
+  - cbn [nth_error] in H. apply IH in H. exact H.
+Qed.
+
+Lemma pieces_gap : forall (bs : list R) k p, ssorted bs -> nth_error (pieces bs) k = Some p ->
+  fst p < snd p /\ forall z, In z bs -> z <= fst p \/ snd p <= z.
+Proof.
+  induction bs as [|a bs IH]; intros k p S H; [destruct k; discriminate|].
+  destruct bs as [|b r]; [destruct k; discriminate|].
+  rewrite pieces_cons2 in H.
+  pose proof (ssorted_cons_inv _ _ S) as [S' F]. rewrite Forall_forall in F.
+  destruct k as [|k].
+  - cbn in H. injection H as <-. cbn [fst snd]. split; [apply F; left; auto|].
+    intros z [<-|[<-|Hz]]; [left; lra|right; lra|right].
+    apply ssorted_cons_inv in S' as [_ F']. rewrite Forall_forall in F'. apply F' in Hz. lra.
+  - cbn [nth_error] in H. destruct (IH k p S' H) as [Hlt Hz]. split; auto.
+    intros z [<-|Hin]; auto. left.
+    apply pieces_nth in H as [H _]. apply nth_error_In in H. apply F in H. lra.
+Qed.
+
+Lemma ssorted_bracket : forall (lo hi : R) l, ssorted l -> (forall x, In x l -> lo < x < hi) -> lo < hi ->
+  ssorted (lo :: l ++ [hi]).
+Proof.
+  intros lo hi l S B H. apply ssorted_cons.
+  - induction l as [|a l IH]; cbn [app]; [apply ssorted_cons; [apply ssorted_nil|constructor]|].
+    pose proof (ssorted_cons_inv _ _ S) as [S' F]. rewrite Forall_forall in F.
+    apply ssorted_cons.
+    + apply IH; auto. intros; apply B; right; auto.
+    + rewrite Forall_forall. intros x Hx. apply in_app_or in Hx as [Hx|[<-|[]]]; auto.
+      apply B; left; auto.
+  - rewrite Forall_forall. intros x Hx. apply in_app_or in Hx as [Hx|[<-|[]]]; auto. apply B; auto.
+Qed.
+
+Lemma breaks_inside : forall ts te s1 s2 x,
+  In x (sort_unique ROps (filter (fun x => nltb ROps ts x && nltb ROps x te) (s1 ++ s2))) <->
+  (In x s1 \/ In x s2) /\ ts < x < te.
+Proof.
+  intros. rewrite sort_unique_in, filter_In, in_app_iff. cbn [nltb ROps].
+  rewrite andb_true_iff, !Rltb_true. tauto.
+Qed.
+
+Lemma breaks_sorted : forall ts te s1 s2, ts < te -> ssorted (breaks ROps ts te s1 s2).
+Proof.
+  intros ts te s1 s2 H. unfold breaks. apply ssorted_bracket; auto.
+  - apply sort_unique_sorted.
+  - intros x Hx. apply breaks_inside in Hx. tauto.
+Qed.
+
+Lemma in_breaks : forall ts te s1 s2 s z, valid ts te s -> (forall y, In y s -> In y s1 \/ In y s2) ->
+  In z s -> In z (breaks ROps ts te s1 s2).
+Proof.
+  intros ts te s1 s2 s z (Hte & _ & B) Hs Hz. rewrite Forall_forall in B. specialize (B z Hz).
+  unfold breaks. destruct (Req_dec z ts) as [->|N1]; [left; auto|]. right.
+  apply in_or_app. destruct (Req_dec z te) as [->|N2]; [right; left; auto|]. left.
+  apply breaks_inside. split; auto. lra.
+Qed.
+
+Lemma prev_at : forall u x tm, ssorted u -> In x u -> x <= tm ->
+  (forall z, In z u -> z <= x \/ tm < z) -> prev_of ROps tm u None = Some x.
+Proof.
+  intros u x tm S Hin Hx Hgap.
+  destruct (split_at u tm) as (p & f & E & P & Hh). subst u.
+  rewrite prev_rev, prev_hi by auto.
+  assert (Hp : In x p).
+  { apply in_app_or in Hin as [Hin|Hin]; [apply in_rev; auto|]. exfalso.
+    destruct f as [|y f']; [destruct Hin|]. cbn [hi] in Hh.
+    apply ssorted_app_inv in S as (_ & Sf & _). apply ssorted_cons_inv in Sf as [_ F].
+    rewrite Forall_forall in F. destruct Hin as [<-|Hin]; [lra|]. apply F in Hin. lra. }
+  destruct p as [|a p']; [destruct Hp|]. f_equal.
+  inversion P as [|? ? Pa _]; subst.
+  assert (Ha : In a (rev (a :: p') ++ f)) by (apply in_or_app; left; apply in_rev; rewrite rev_involutive; left; auto).
+  destruct (Hgap a Ha) as [H1|H1]; [|lra].
+  destruct Hp as [->|Hp]; auto.
+  cbn [rev] in S. rewrite <- app_assoc in S. cbn [app] in S.
+  apply ssorted_mid in S as (_ & _ & H & _). apply in_rev in Hp. apply H in Hp. lra.
+Qed.
+
+Lemma next_at : forall u x tm, ssorted u -> In x u -> tm < x ->
+  (forall z, In z u -> z <= tm \/ x <= z) -> next_of ROps tm u = Some x.
+Proof.
+  intros u x tm S Hin Hx Hgap.
+  destruct (split_at u tm) as (p & f & E & P & Hh). subst u.
+  rewrite next_rev, next_hi by auto.
+  assert (Hf : In x f).
+  { apply in_app_or in Hin as [Hin|Hin]; auto. exfalso.
+    apply in_rev in Hin. rewrite Forall_forall in P. apply P in Hin. lra. }
+  destruct f as [|y f']; [destruct Hf|]. f_equal. cbn [hi] in Hh.
+  assert (Hy : In y (rev p ++ y :: f')) by (apply in_or_app; right; left; auto).
+  destruct (Hgap y Hy) as [H1|H1]; [lra|].
+  destruct Hf as [->|Hf]; auto.
+  apply ssorted_app_inv in S as (_ & Sf & _). apply ssorted_cons_inv in Sf as [_ F].
+  rewrite Forall_forall in F. apply F in Hf. lra.
+Qed.
+
+Lemma contrib_zero_prev : forall ts te u w tm x, prev_of ROps tm u None = Some x -> In x w ->
+  fst (contrib ROps ts te u w tm x) = 0.
+Proof.
+  intros ts te u w tm x H Hin. unfold contrib. rewrite H.
+  destruct (next_of ROps tm u); cbn [fst]; rewrite (nearest_zero_at_spike _ _ _ Hin); auto.
+  cbn [nadd nsub nmul ndiv ROps]. unfold Rdiv. ring.
+Qed.
+
+Lemma contrib_zero_next : forall ts te u w tm x, next_of ROps tm u = Some x -> In x w ->
+  fst (contrib ROps ts te u w tm x) = 0.
+Proof.
+  intros ts te u w tm x H Hin. unfold contrib. rewrite H.
+  destruct (prev_of ROps tm u None); cbn [fst]; rewrite (nearest_zero_at_spike _ _ _ Hin); auto.
+  cbn [nadd nsub nmul ndiv ROps]. unfold Rdiv. ring.
+Qed.
+
+Lemma spike_at_zero : forall ts te m ri u1 u2 tm x,
+  fst (contrib ROps ts te u1 u2 tm x) = 0 -> fst (contrib ROps ts te u2 u1 tm x) = 0 ->
+  spike_at ROps ts te m ri u1 u2 tm x = 0.
+Proof.
+  intros ts te m ri u1 u2 tm x H1 H2. rewrite spike_at_eq_dist_at_t.
+  destruct (contrib ROps ts te u1 u2 tm x) as [c1 i1]. destruct (contrib ROps ts te u2 u1 tm x) as [c2 i2].
+  cbn [fst] in *. subst. apply dist_at_t_zero.
+Qed.
+
+Theorem spike_spec_zero_at_shared : forall s1 s2 ts te m ri x k,
+  valid ts te s1 -> valid ts te s2 -> In x s1 -> In x s2 ->
+  nth_error (fst (fst (spike_spec ROps s1 s2 ts te m ri))) k = Some x ->
+  (forall v, nth_error (snd (fst (spike_spec ROps s1 s2 ts te m ri))) k = Some v -> v = 0) /\
+  (forall j v, k = S j -> nth_error (snd (spike_spec ROps s1 s2 ts te m ri)) j = Some v -> v = 0).
+Proof.
+  intros s1 s2 ts te m ri x k V1 V2 X1 X2. unfold spike_spec. cbn [fst snd].
+  assert (Hte : ts < te) by (destruct V1; auto).
+  pose proof (eff_valid V1) as W1. pose proof (eff_valid V2) as W2.
+  pose proof (eff_in ts te s1 x X1) as Y1. pose proof (eff_in ts te s2 x X2) as Y2.
+  assert (E1 : eff ts te s1 = s1) by (destruct s1; [destruct X1|reflexivity]).
+  assert (E2 : eff ts te s2 = s2) by (destruct s2; [destruct X2|reflexivity]).
+  rewrite E1, E2 in *. clear E1 E2 Y1 Y2.
+  set (bs := breaks ROps ts te s1 s2).
+  pose proof (breaks_sorted ts te s1 s2 Hte) as Sb. fold bs in Sb.
+  assert (B1 : forall z, In z s1 -> In z bs) by (intros z Hz; apply (in_breaks ts te s1 s2 s1 z); auto).
+  assert (B2 : forall z, In z s2 -> In z bs) by (intros z Hz; apply (in_breaks ts te s1 s2 s2 z); auto).
+  destruct V1 as (_ & S1 & _). destruct V2 as (_ & S2 & _).
+  intros Hk. split.
+  - intros v Hv. rewrite nth_error_map in Hv.
+    destruct (nth_error (pieces bs) k) as [p|] eqn:Ep; [|discriminate]. cbn in Hv. injection Hv as <-.
+    destruct (pieces_gap bs k p Sb Ep) as [Hlt Hgap].
+    destruct (pieces_nth bs k p Ep) as [Hf _]. rewrite Hk in Hf. injection Hf as Hf.
+    destruct p as [a b]. cbn [fst snd] in *. subst a.
+    pose proof (mid_between x b Hlt) as [M1 M2].
+    apply spike_at_zero; apply contrib_zero_prev; auto; apply prev_at; auto; try lra.
+    + intros z Hz. destruct (Hgap z (B1 z Hz)); [left|right]; lra.
+    + intros z Hz. destruct (Hgap z (B2 z Hz)); [left|right]; lra.
+  - intros j v -> Hv. rewrite nth_error_map in Hv.
+    destruct (nth_error (pieces bs) j) as [p|] eqn:Ep; [|discriminate]. cbn in Hv. injection Hv as <-.
+    destruct (pieces_gap bs j p Sb Ep) as [Hlt Hgap].
+    destruct (pieces_nth bs j p Ep) as [_ Hf]. rewrite Hk in Hf. injection Hf as Hf.
+    destruct p as [a b]. cbn [fst snd] in *. subst b.
+    pose proof (mid_between a x Hlt) as [M1 M2].
+    apply spike_at_zero; apply contrib_zero_next; auto; apply next_at; auto; try lra.
+    + intros z Hz. destruct (Hgap z (B1 z Hz)); [left|right]; lra.
+    + intros z Hz. destruct (Hgap z (B2 z Hz)); [left|right]; lra.
+Qed.
+
+Theorem spike_zero_at_shared : forall s1 s2 ts te m ri x k,
+  valid ts te s1 -> valid ts te s2 -> In x s1 -> In x s2 ->
+  let P := spike_profile_py ROps (eff ts te s1) (eff ts te s2) ts te m ri in
+  nth_error (fst (fst P)) k = Some x ->
+  (forall v, nth_error (snd (fst P)) k = Some v -> v = 0) /\
+  (forall j v, k = S j -> nth_error (snd P) j = Some v -> v = 0).
+Proof.
+  intros s1 s2 ts te m ri x k V1 V2 X1 X2 P. unfold P. rewrite spike_profile_spec by auto.
+  apply spike_spec_zero_at_shared; auto.
+Qed.
+
+(* ------------------------------------------------------------------ *)
+(* E. the single-pass trapezoid sum is the average of the profile       *)
+
+Lemma pwl_int_all_cons2 : forall (x0 x1 : R) xs a y1 b y2,
+  pwl_int_all ROps (x0 :: x1 :: xs) (a :: y1) (b :: y2) =
+  (x1 - x0) * ((a + b) / 2) + pwl_int_all ROps (x1 :: xs) y1 y2.
+Proof. intros. cbn [pwl_int_all]. rops. reflexivity. Qed.
+
+Lemma pwl_int_all_single : forall (x0 : R) y1 y2, pwl_int_all ROps [x0] y1 y2 = 0.
+Proof. intros. destruct y1, y2; reflexivity. Qed.
+
+Lemma last_default : forall (a : R) l d d', last (a :: l) d = last (a :: l) d'.
+Proof.
+  intros a l; revert a; induction l as [|b l IH]; intros a d d'; [reflexivity|].
+  change (last (a :: b :: l) d) with (last (b :: l) d).
+  change (last (a :: b :: l) d') with (last (b :: l) d'). apply IH.
+Qed.
+
+Lemma spike_acc_spec : forall evs tl ys acc,
+  spike_acc ROps evs tl ys acc =
+  (last (tl :: map (@ev_t R) evs) tl, last (ys :: map y1of evs) ys,
+   snd (spike_acc ROps evs tl ys acc)) /\
+  snd (spike_acc ROps evs tl ys acc) =
+  acc + pwl_int_all ROps (tl :: map (@ev_t R) evs) (ys :: map y1of evs) (map y2of evs).
+Proof.
+  induction evs as [|[[t ye] ys'] r IH]; intros tl ys acc.
+  - cbn [spike_acc map last fst snd]. rewrite pwl_int_all_single. split; [reflexivity|lra].
+  - cbn [spike_acc map ev_t y1of y2of fst snd]. destruct (IH t ys' (nadd ROps acc
+        (nmul ROps (nhalfmul ROps (nadd ROps ys ye)) (nsub ROps t tl)))) as [E1 E2].
+    split.
+    + rewrite E1 at 1. f_equal. f_equal.
+      * change (last (tl :: t :: map (@ev_t R) r) tl) with (last (t :: map (@ev_t R) r) tl).
+        apply last_default.
+      * change (last (ys :: ys' :: map y1of r) ys) with (last (ys' :: map y1of r) ys).
+        apply last_default.
+    + rewrite E2. rewrite pwl_int_all_cons2. unfold nhalfmul. rops. lra.
+Qed.
+
+Lemma pwl_int_all_removelast : forall evs tl ys,
+  pwl_int_all ROps (tl :: map (@ev_t R) evs) (removelast (ys :: map y1of evs)) (map y2of evs) =
+  pwl_int_all ROps (tl :: map (@ev_t R) evs) (ys :: map y1of evs) (map y2of evs).
+Proof.
+  induction evs as [|e r IH]; intros tl ys.
+  - cbn [map removelast]. rewrite !pwl_int_all_single. reflexivity.
+  - cbn [map]. change (removelast (ys :: y1of e :: map y1of r)) with (ys :: removelast (y1of e :: map y1of r)).
+    rewrite !pwl_int_all_cons2, IH. reflexivity.
+Qed.
+
+Lemma pwl_int_all_snoc : forall evs tl ys te yl,
+  pwl_int_all ROps ((tl :: map (@ev_t R) evs) ++ [te]) (ys :: map y1of evs) (map y2of evs ++ [yl]) =
+  pwl_int_all ROps (tl :: map (@ev_t R) evs) (ys :: map y1of evs) (map y2of evs) +
+  (te - last (tl :: map (@ev_t R) evs) tl) * ((last (ys :: map y1of evs) ys + yl) / 2).
+Proof.
+  induction evs as [|e r IH]; intros tl ys te yl.
+  - cbn [map app last]. rewrite pwl_int_all_cons2, !pwl_int_all_single. lra.
+  - cbn [map app]. rewrite !pwl_int_all_cons2.
+    change (ev_t e :: (map (@ev_t R) r ++ [te])) with ((ev_t e :: map (@ev_t R) r) ++ [te]).
+    rewrite (IH (ev_t e) (y1of e) te yl).
+    change (last (tl :: ev_t e :: map (@ev_t R) r) tl) with (last (ev_t e :: map (@ev_t R) r) tl).
+    change (last (ys :: y1of e :: map y1of r) ys) with (last (y1of e :: map y1of r) ys).
+    rewrite (last_default (ev_t e) _ tl (ev_t e)), (last_default (y1of e) _ ys (y1of e)). lra.
+Qed.
+
+Lemma last_le : forall (l : list R) a b, a <= b -> (forall x, In x l -> x <= b) -> last (a :: l) a <= b.
+Proof.
+  induction l as [|c l IH]; intros a b Ha H; [exact Ha|].
+  change (last (a :: c :: l) a) with (last (c :: l) a). rewrite (last_default c l a c).
+  apply IH; [apply H; left; auto|intros; apply H; right; auto].
+Qed.
+
+Theorem spike_distance_cy_avrg : forall t1 t2 ts te m ri,
+  valid ts te t1 -> valid ts te t2 -> t1 <> [] -> t2 <> [] ->
+  Ok (spike_distance_cy ROps t1 t2 ts te m ri) =
+  pwl_avrg ROps (spike_profile_cy ROps t1 t2 ts te m ri) (@IvNone R).
+Proof.
+  intros t1 t2 ts te m ri V1 V2 N1 N2.
+  assert (Hte : ts < te) by (destruct V1; auto).
+  unfold spike_distance_cy, spike_profile_cy, spike_profile_gen. rewrite !t_aux_cy_spec.
+  pose proof (sinv_init ts te t1 t2 V1 V2 N1) as X1. cbv zeta in X1.
+  pose proof (sinv_init ts te t2 t1 V2 V1 N2) as X2. cbv zeta in X2.
+  destruct X1 as (_ & T1 & M1 & _). destruct X2 as (_ & T2 & M2 & _).
+  set (aux1 := aux_of ROps ts te t1) in *. set (aux2 := aux_of ROps ts te t2) in *.
+  set (a0 := spike_init ROps ts te t1 t2 aux1 aux2) in *.
+  set (b0 := spike_init ROps ts te t2 t1 aux2 aux1) in *.
+  set (fuel := (length t1 + length t2)%nat).
+  pose proof (spike_loop_events fuel te m ri aux1 aux2 a0 b0 T1 T2) as Ev.
+  set (evs := spike_loop ROps fuel te m ri aux1 aux2 a0 b0) in *.
+  destruct (spike_final ROps fuel te m ri aux1 aux2 a0 b0) as [af bf].
+  set (y0 := dist_at_t ROps (s_isi a0) (s_isi b0) (s_s a0) (s_s b0) m ri).
+  set (yl := dist_at_t ROps (s_isi af) (s_isi bf) (s_dtf af) (s_dtf bf) m ri).
+  destruct (spike_acc_spec evs ts y0 (n0 ROps)) as [A1 A2].
+  rewrite A1. clear A1.
+  set (accv := snd (spike_acc ROps evs ts y0 (n0 ROps))) in *.
+  assert (Hacc : accv =
+                 pwl_int_all ROps (ts :: map (@ev_t R) evs) (y0 :: map y1of evs) (map y2of evs)).
+  { rewrite A2. cbn [n0 ROps]. lra. }
+  assert (Hlast : last (ts :: map (@ev_t R) evs) ts <= te).
+  { apply last_le; [lra|]. intros x Hx. rewrite Ev in Hx. apply mrg_in in Hx.
+    destruct V1 as (_ & _ & B1). destruct V2 as (_ & _ & B2). rewrite Forall_forall in B1, B2.
+    destruct Hx as [Hx|Hx]; [apply M1 in Hx as [Hx _]; apply B1 in Hx|apply M2 in Hx as [Hx _]; apply B2 in Hx]; lra. }
+  rewrite (last_default ts (map (@ev_t R) evs) te ts).
+  cbn [nltb neqb ROps].
+  destruct (Reqb_spec (last (ts :: map (@ev_t R) evs) ts) te) as [Heq|Hne].
+  - destruct (Rltb_spec (last (ts :: map (@ev_t R) evs) ts) te) as [Hlt|_]; [lra|].
+    unfold pwl_avrg, avrg_gen, pwl_integral, rmap. cbn [fst snd]. f_equal.
+    unfold nthF, lastF. cbn [nth]. rewrite (last_default ts (map (@ev_t R) evs) (n0 ROps) ts), Heq.
+    change (fun e : R * R * R => snd e) with y1of. change (fun e : R * R * R => snd (fst e)) with y2of.
+    rewrite pwl_int_all_removelast, Hacc. reflexivity.
+  - destruct (Rltb_spec (last (ts :: map (@ev_t R) evs) ts) te) as [Hlt|Hge]; [|lra].
+    unfold pwl_avrg, avrg_gen, pwl_integral, rmap. cbn [fst snd]. f_equal.
+    unfold nthF, lastF. rewrite last_last. cbn [nth app].
+    change (fun e : R * R * R => snd e) with y1of. change (fun e : R * R * R => snd (fst e)) with y2of.
+    change (ts :: map (@ev_t R) evs ++ [te]) with ((ts :: map (@ev_t R) evs) ++ [te]).
+    rewrite pwl_int_all_snoc, Hacc. unfold nhalfmul. rops. f_equal. lra.
+Qed.
+
+Print Assumptions spike_profile_cy_eq.
+Print Assumptions spike_profile_spec.
+Print Assumptions spike_profile_breakpoints.
+Print Assumptions spike_profile_sym.
+Print Assumptions spike_zero_at_shared.
+Print Assumptions spike_distance_cy_avrg.
